@@ -92,7 +92,7 @@ func judgeC06(role string, steps []string, w *World, res *MonitorResult) {
 			nFaults++
 		}
 	}
-	crashed := false
+	crashed, claimedOnChain := false, false
 	for _, o := range w.obs {
 		switch o.Kind {
 		case "pay":
@@ -105,9 +105,11 @@ func judgeC06(role string, steps []string, w *World, res *MonitorResult) {
 			crashed = true
 		case "restart":
 			crashed = false
+		case "spend-unrecorded":
+			claimedOnChain = true // the claim IS on the chain; the node just does not know (a C16 matter, not C06)
 		}
 	}
-	if paid && !w.dead && !crashed && nFaults > 0 && nFaults <= 3 && strings.HasSuffix(last, "_ClaimSwap") {
+	if paid && !w.dead && !crashed && !claimedOnChain && nFaults > 0 && nFaults <= 3 && strings.HasSuffix(last, "_ClaimSwap") {
 		res.Histogram["paid, wallet failed once, still claiming?"]++
 		res.addFinding(fmt.Sprintf("C06/%s/stopped-claiming-after-wallet-failure", role),
 			"the taker paid, its wallet failed to build the preimage claim "+fmt.Sprint(nFaults)+" time(s), and it stopped trying (rests in "+last+" with the process alive)",
